@@ -279,7 +279,8 @@ def fam_ws(rnd, tier, part):
 
 def fam_md(rnd, tier):
     out = []
-    names = [("x-a", "x-a"), ("X-Mixed-Case", "x-mixed-case"), ("x-multi", "x-multi"), ("X-UPPER", "x-upper")]
+    names = [("x-a", "x-a"), ("X-Mixed-Case", "x-mixed-case"), ("x-multi", "x-multi"), ("X-UPPER", "x-upper"),
+             ("X-a_b.c9", "x-a_b.c9"), ("x-0", "x-0"), ("X-Very-Long-Header-Name-With-Many-Parts-0123456789", "x-very-long-header-name-with-many-parts-0123456789")]
     bins = ["", "00", "0001", "000102", "00010203", "ff", "fffe", "fffefd", "7f80ff00"]
     for proto in ["http", "grpc", "grpcweb", "grpcwebtext"]:
         for shape in ["unary", "bidi", "sstream"]:
